@@ -55,7 +55,8 @@ type vos struct{ fs memFS }
 
 func (vos) Platform() interp.Platform { return interp.Platform{OS: "verif", Arch: "verif"} }
 func (vos) Stdin() interp.Input {
-	return vin{FileReader: interp.FileReader{R: bytes.NewBuffer(nil), FileInfo: interp.FixedFileInfo{FName: "stdin"}}}
+	// stdin is writable in fq (an *os.File): give the virtual one a sink instead of a nil Writer
+	return vin{FileReader: interp.FileReader{R: bytes.NewBuffer(nil), FileInfo: interp.FixedFileInfo{FName: "stdin"}}, Writer: io.Discard}
 }
 func (vos) Stdout() interp.Output        { return vout{io.Discard} }
 func (vos) Stderr() interp.Output        { return vout{io.Discard} }
